@@ -305,6 +305,29 @@ fn session(seed: u64, scenario: &str) -> Vec<Value> {
             }
         }
     }
+    if scenario == "hammer" {
+        // four threads issue wake requests back to back while this thread polls: requests may coalesce, none may be lost
+        let running = Arc::new(AtomicU64::new(4));
+        for t in 0..4u64 {
+            let waker = term.waker();
+            let running = running.clone();
+            let mut r = Rng::new(seed ^ (t + 1));
+            threads.push(std::thread::spawn(move || {
+                for _ in 0..150 {
+                    ev(r#"{"ev":"wake_start"}"#.to_string());
+                    waker.wake().unwrap();
+                    ev(r#"{"ev":"wake_end"}"#.to_string());
+                    if r.chance(1, 4) {
+                        std::thread::sleep(Duration::from_micros(r.below(200) as u64));
+                    }
+                }
+                running.fetch_sub(1, Ordering::SeqCst);
+            }));
+        }
+        while running.load(Ordering::SeqCst) > 0 {
+            do_poll(&mut term, Some(Duration::from_millis(20)));
+        }
+    }
     for t in threads {
         t.join().unwrap();
     }
@@ -342,6 +365,15 @@ fn session(seed: u64, scenario: &str) -> Vec<Value> {
                         break;
                     }
                 }
+            } else if seed / 8 % 2 == 1 {
+                // the signal is met by a cursor-position query (its inner polls must let the quit error through)
+                let r = term.position();
+                let kind = match &r {
+                    Err(surf_n_term::Error::Quit) => "quit",
+                    Err(_) => "error",
+                    Ok(_) => "other",
+                };
+                ev(format!(r#"{{"ev":"poll_ret","kind":"{}","id":0,"eof":false}}"#, kind));
             } else {
                 do_poll(&mut term, Some(Duration::from_millis(200)));
             }
